@@ -7,9 +7,9 @@ def run(ctx):
     b = ctx.go_test_binary("", "h_estargz", module_dir="estargz")
     if b:
         ctx.correspond(b, "TestVerifC14", "svdriver_c14", "c14",
-                       env={"VERIF_N": 1000 if quick else 30000,
-                            "VERIF_NBUILD": 150 if quick else 4000,
-                            "VERIF_NCYCLE": 14 if quick else 60},
+                       env={"VERIF_N": 1000 if quick else 20000,
+                            "VERIF_NBUILD": 150 if quick else 3000,
+                            "VERIF_NCYCLE": 14 if quick else 40},
                        timeout=600 if quick else 3000)
     return ctx.finish(
         level="proof",
